@@ -10,7 +10,7 @@ from vf import pbgen
 
 SHARDS = {'quick': 16, 'thorough': 64}
 TIMEOUT = {'quick': 1800, 'thorough': 7200}
-MUST_HIT = ['EarlierObject.rechecked', 'RoundTrip.tree-compared', 'RoundTrip.second-translation', 'Home.function', 'Home.bridge',
+MUST_HIT = ['Generator.unary-plus', 'EarlierObject.rechecked', 'RoundTrip.tree-compared', 'RoundTrip.second-translation', 'Home.function', 'Home.bridge',
             'Home.operation', 'Home.derived', 'Construct.SelectRelatedWhereNode', 'Construct.RelateUsingNode',
             'Construct.ForEachNode', 'Construct.IndexAccessNode', 'Construct.InstanceInvocationNode',
             'Construct.FunctionInvocationNode', 'Construct.EnumOrNamedConstantNode', 'Construct.ParamAccessNode',
@@ -163,3 +163,5 @@ def run(ctx):
             ctx.count('programs')
         except Mismatch as e:
             ctx.violation(e.key, e.what, case=dict(what=e.what))
+    from vf import oalmodel as _om
+    ctx.hit('Generator.unary-plus', _om.STATS.get('unary-plus', 0))
